@@ -77,10 +77,13 @@ SinkStall == /\ Stalls /\ sinkUp /\ conn = "up" /\ ~stalled /\ faults < MaxFault
 SinkResume == /\ stalled
               /\ delivered' = delivered \o pending /\ pending' = <<>> /\ stalled' = FALSE /\ stable' = 0
               /\ UNCHANGED <<next, cur, i, conn, sinkUp, faults, errCount>>
-SinkRst == /\ stalled
+(* the sink aborts the connection (RST) and stays reachable: after a stall what it had not read is gone; without one, it *)
+(* had read everything - nothing is lost, the next write merely fails                                                  *)
+SinkRst == /\ Stalls /\ sinkUp /\ (stalled \/ faults < MaxFaults)
            /\ pending' = <<>> /\ stalled' = FALSE /\ stable' = 0
+           /\ faults' = IF stalled THEN faults ELSE faults + 1
            /\ conn' = IF conn = "up" THEN "peerclosed" ELSE conn
-           /\ UNCHANGED <<next, cur, i, sinkUp, faults, delivered, errCount>>
+           /\ UNCHANGED <<next, cur, i, sinkUp, delivered, errCount>>
 
 Next == Take \/ WriteOk \/ WriteLost \/ WriteReset \/ WriteEPIPE \/ SinkDie \/ SinkRestart \/ SinkStall \/ SinkResume \/ SinkRst
 Spec == Init /\ [][Next]_vars /\ WF_vars(Take) /\ WF_vars(WriteOk) /\ WF_vars(WriteLost \/ WriteReset) /\ WF_vars(WriteEPIPE) /\ WF_vars(SinkResume \/ SinkRst)
